@@ -19,7 +19,7 @@ import (
 const c07MaxLen = 4 << 20
 
 func init() {
-	register(&Prop{ID: "C07", N: 60000, Quick: 1500, QuickFixed: 9, StallSec: 240,
+	register(&Prop{ID: "C07", Witness: true, N: 60000, Quick: 1500, QuickFixed: 9, StallSec: 240,
 		Assume: []string{"a fault on a PROT_NONE page next to the haystack, or a store to its PROT_READ data pages, is turned into a panic by debug.SetPanicOnFault (self-test Probe() at start-up; the run is INCONCLUSIVE without it)", "non-termination is decided by the supervisor's per-case watchdog (240 s without progress, 1000× the median case) and then confirmed by replay; a panic or fatal error by the worker's exit status and journal"},
 		Rule:   "case i = (a) the arbitrary pattern string P(i) (random bytes, token soup, mutated valid patterns, invalid UTF-8, nesting/repeat/size limit families): Compile, CompilePOSIX, meta.Compile and QuoteMeta must return; when it compiles, it is searched too; (b) the pattern of G(D,i) with its 6 haystacks of all three input regions and, for every 40th case, a haystack of 70 000 – 1 048 576 bytes (past the backtracker's visited caps and the windowed fallbacks). Every haystack is placed flush against a PROT_NONE page (right and left alternately) on PROT_READ data pages, strings are views of the same guarded bytes; every public search/replace/split/iterator method of Regex and the offset-taking methods of meta.Engine (at in {0, mid, len, len+1}) are called; every returned value must satisfy the well-formedness predicates (span order and bounds, groups inside group 0 or -1/-1, len(submatch)=NumSubexp+1, FindAll ordered/non-overlapping/progressing, returned slices alias the input at the reported offsets, haystack bytes unchanged); one evaluation = one checked call; distinct_nontrivial = distinct (pattern, haystack, API) whose result carried at least one span",
 		Init:   initC07,
@@ -146,6 +146,10 @@ func (c *c07ctx) alias(api string, h, got []byte, s, e int) {
 	}
 	if len(got) != e-s {
 		c.bad(api, h, "returned slice has length %d, span is [%d %d]", len(got), s, e)
+		return
+	}
+	if cap(got) != len(got) {
+		c.bad(api, h, "returned slice is not capacity-limited (len %d cap %d): append would write into the haystack", len(got), cap(got))
 		return
 	}
 	if len(got) > 0 && addrOf(got) != addrOf(h)+uintptr(s) {
